@@ -33,6 +33,8 @@ def nontrivial(d):
         return x in (0, 1, top, top >> 1, (top >> 1) + 1) or bin(x).count('1') <= 2 or bin(top ^ x).count('1') <= 2
     if d['t'] == 'text':
         return 34 in d['v'] or 39 in d['v']
+    if d['t'] == 'arr':
+        return len(d['v']) >= 255
     if d['t'] in ('dbl', 'flt'):
         return d['e'] <= -5 or d['e'] >= 15 or len(d['d']) <= 2
     if d['t'] == 'block':
